@@ -59,6 +59,27 @@ MAPPINGS: dict[str, dict[str, dict[str, Any]]] = {
         "event_id": dict(key_paths=[P + "sid"], value_type="string"),
         "start_timestamp": dict(key_paths=[P + "start"], value_type="string"),
     },
+    "two lookups with different keys in one attribute array": {
+        "event_type": dict(key_paths=[P + "attrs.[].key"], key_value=["http.method"], value_paths=["value.v"], value_type="string"),
+        "job_id": dict(key_paths=[P + "attrs.[].key"], key_value=["http.url"], value_paths=["value.v"], value_type="string"),
+    },
+    "priority between two lookups, then a plain path": {
+        "event_type": dict(key_paths=[[P + "attrs.[].key", P + "attrs.[].key", P + "name"]], key_value=[["first", "second", None]],
+                           value_paths=[["value.v", "value.v", None]], value_type="string"),
+    },
+    "three-way concatenation (header, span, lookup)": {
+        "event_type": dict(key_paths=["rs.[].ss.[].scope.name", P + "name", P + "attrs.[].key"], key_value=[None, None, "http.method"],
+                           value_paths=[None, None, "value.v"], value_type="string"),
+        "event_id": dict(key_paths=[P + "sid"], value_type="string"),
+    },
+    "header lookup concatenated with span lookup": {
+        "job_name": dict(key_paths=["rs.[].res.attrs.[].key", P + "attrs.[].key"], key_value=["service.name", "http.method"],
+                         value_paths=["value.v", "value.v"], value_type="string"),
+    },
+    "lookup whose value sits directly in the attribute": {
+        "event_type": dict(key_paths=[P + "attrs.[].key"], key_value=["http.method"], value_paths=["vtop"], value_type="string"),
+        "application_name": dict(key_paths=[[P + "attrs.[].key", P + "app"]], key_value=[["svc", None]], value_paths=[["vtop", None]], value_type="string"),
+    },
     "array level sharing its name with the final key": {
         "outer": dict(key_paths=["items.[].id"], value_type="string"),
         "inner": dict(key_paths=["items.[].sub.[].items"], value_type="string"),
@@ -71,7 +92,7 @@ MAPPINGS: dict[str, dict[str, dict[str, Any]]] = {
 # document skeletons: templates with token leaves ("§...") that become symbolic strings
 # --------------------------------------------------------------------------
 def attr(tag: str) -> dict[str, Any]:
-    return {"key": f"§k{tag}", "value": {"v": f"§v{tag}"}}
+    return {"key": f"§k{tag}", "value": {"v": f"§v{tag}"}, "vtop": f"§t{tag}"}
 
 
 def span(tag: str, n_attrs: int) -> dict[str, Any]:
@@ -95,6 +116,28 @@ def edit(doc: Any, path: list[Any], value: Any = "DELETE") -> Any:
     else:
         cur[path[-1]] = value
     return d
+
+
+_SP0 = ["rs", 0, "ss", 0, "spans", 0]
+SINGLE_EDITS: dict[str, tuple] = {
+    "empty scope list": (["rs", 0, "ss"], []),
+    "empty span list": (["rs", 0, "ss", 0, "spans"], []),
+    "span without attribute array": (_SP0 + ["attrs"],),
+    "resource without attribute array": (["rs", 0, "res", "attrs"],),
+    "missing resource object": (["rs", 0, "res"],),
+    "missing scope object": (["rs", 0, "ss", 0, "scope"],),
+    "span name null": (_SP0 + ["name"], None),
+    "span name absent": (_SP0 + ["name"],),
+    "trace id absent": (_SP0 + ["tid"],),
+    "scope name null": (["rs", 0, "ss", 0, "scope", "name"], None),
+    "attribute key null": (_SP0 + ["attrs", 0, "key"], None),
+    "attribute without value": (_SP0 + ["attrs", 1, "value"],),
+    "attribute value is a number": (_SP0 + ["attrs", 1, "value", "v"], 200),
+    "span name is a number": (_SP0 + ["name"], 7),
+    "attribute value null": (_SP0 + ["attrs", 0, "value", "v"], None),
+    "second span without attributes": (["rs", 0, "ss", 0, "spans", 1, "attrs"],),
+    "resource attribute key null": (["rs", 0, "res", "attrs", 0, "key"], None),
+}
 
 
 def skeletons(tier: str) -> dict[str, Any]:
@@ -125,6 +168,17 @@ def skeletons(tier: str) -> dict[str, Any]:
         "attribute value null": edit(base, sp0 + ["attrs", 0, "value", "v"], None),
     }
     if tier == "thorough":
+        import itertools
+        import random
+        singles = {k: v for k, v in SINGLE_EDITS.items()}
+        pairs = list(itertools.combinations(sorted(singles), 2))
+        random.Random(int(os.environ.get("VERIF_SEED", "0") or 0)).shuffle(pairs)
+        for a, b in pairs[:40]:
+            try:
+                d = edit(edit(base, *singles[a]), *singles[b])
+            except (KeyError, IndexError, TypeError):
+                continue   # the second edit addresses something the first removed
+            sk[f"{a} + {b}"] = d
         sk.update({
             "3 spans, 1 attribute each": otel(1, 1, 3, 1, 1),
             "2 resources x 2 scopes": otel(2, 2, 1, 1, 1),
